@@ -28,6 +28,7 @@ fn special_family(rng: &mut Rng, cfg: &GenCfg) -> Option<Vec<Doc>> {
     let which = rng.below(40);
     // the huge-schema and huge-table families are expensive: once in 600 sessions each
     let which = if (which == 4 || which == 5) && !rng.pct(7) { 39 } else { which };
+    let which = if which == 6 && !rng.pct(10) { 39 } else { which };
     family(rng, cfg, which)
 }
 
@@ -104,6 +105,31 @@ pub fn family(rng: &mut Rng, cfg: &GenCfg, which: usize) -> Option<Vec<Doc>> {
                 docs.insert(0, Doc::plain(root));
             }
             Some(docs)
+        }
+        6 => {
+            // name flood: a parent that is met again, and whose later occurrence brings hundreds or thousands of names
+            // the process has never seen (a bounded symbol table rolls over *while* that occurrence is being merged)
+            let n = *rng.pick(&[300usize, 300, 1100, 4200]);
+            let tag: String = (0..3).map(|_| (b'a' + rng.below(26) as u8) as char).collect();
+            let mut root = Elem::new("r");
+            let mut first = Elem::new("p");
+            for m in ["m", "k"] {
+                let mut e = Elem::new(m);
+                e.kids.push(Node::Text("t".into()));
+                first.kids.push(Node::Elem(e));
+            }
+            root.kids.push(Node::Elem(first.clone()));
+            let mut second = first.clone();
+            for i in 0..n {
+                let mut e = Elem::new(&format!("{tag}{i}"));
+                e.selfclose = true;
+                second.kids.insert(1 + i.min(1), Node::Elem(e));
+            }
+            root.kids.push(Node::Elem(second));
+            if rng.pct(50) {
+                root.kids.push(Node::Elem(first));
+            }
+            Some(vec![Doc::plain(root)])
         }
         5 => {
             // huge accumulated occurrence count: a table of 33000..70000 tiny rows, supplied once or twice
@@ -291,7 +317,8 @@ fn gen_session(rng: &mut Rng, no_twins: bool, c06: bool) -> Session {
         Some(d) if !(c06 && (d.iter().any(|x| x.root.depth() > 140) || d.len() > 5 || (d.iter().map(|x| x.root.count()).sum::<usize>() > 1500 && d[0].root.count() < 30_000))) => d,
         _ => gen_history(rng, &cfg, k).1,
     };
-    let very_deep = docs.iter().any(|x| x.root.depth() > 140);
+    // expensive histories (very deep, or thousands of distinct children under one parent) get the baseline replica only
+    let very_deep = docs.iter().any(|x| x.root.depth() > 140 || x.root.elems().any(|p| p.kids.len() > 2000));
     let k = docs.len();
     let rewritten_dups = c06 && rng.pct(40);
     let alts: Vec<Option<Doc>> = if rewritten_dups {
